@@ -107,6 +107,9 @@ def scenarios():
     S["qp_uncons_box"] = (lambda fmt="coo": QP([[4, 1], [1, 3]], [-1, -8], np.zeros((0, 2)), [], [], [-1, -1], [0.5, 1.0], fmt), None, None)
     S["nlp_mixed"] = (lambda fmt=None: NLP(), np.array([1.0, 1.0, 0.0]), None)
     S["infeasible"] = (lambda fmt=None: Infeasible(), np.array([0.5]), None)
+    # multipliers of magnitude 1e5 at the solution (bound multiplier -1e5, row multiplier 1e4): a termination test
+    # that is relative to the multiplier size would stop far from stationarity
+    S["qp_big_multipliers"] = (lambda fmt="csc": QP([[1, 0, 0], [0, 0, 0], [0, 0, 1]], [-1, 1e5, 0], [[0, 0, 1]], [1e4], [inf], [-inf, 0, -inf], [inf, 2, inf], fmt), np.array([0.5, 1.0, 1e4]), None)
     return S
 
 
@@ -711,6 +714,7 @@ def _caching(problem, fmt):
     w = copy.copy(problem)
     w.__class__ = C
     cache = {}
+    born = {}
 
     def memo(kind, f, mat=False):
         def g(self, x, *a):
@@ -718,6 +722,7 @@ def _caching(problem, fmt):
             if key not in cache:
                 v = f(x, *a)
                 cache[key] = conv(v) if mat else (np.array(v, dtype=float) if not np.isscalar(v) else v)
+                born[key] = _snap(cache[key])  # the value the caller stored (to be found unchanged later)
             return cache[key]
 
         return g
@@ -728,6 +733,7 @@ def _caching(problem, fmt):
     C.cons_jac = memo("cons_jac", problem.cons_jac, True)
     C.lag_hess = memo("lag_hess", problem.lag_hess, True)
     w._cache = cache
+    w._born = born
     return w
 
 
@@ -779,11 +785,13 @@ def caller_data(tier="quick", seed=0, only=None):
                     if changed:
                         failures.append(dict(label=f"C11:cached_{changed[0]}_object_modified_by_{'ScaledProblem' if scaled else 'ConstrainedProblem'}.{meth}:{fmt}", input=dict(inp, method=meth), observed=f"cached {changed} changed value"))
             # (b) twin solves
-            for scal in ("none", "custom"):
+            for scal in ("none", "custom", "none/single"):
                 inp = dict(scenario=name, format=fmt, scaling=scal, level="solve")
                 if only is not None and only != inp:
                     continue
                 kw = dict(iteration_limit=30)
+                if scal.endswith("single"):
+                    kw.update(precision=enum("Precision", "Single"))
                 if scal == "custom":
                     from pygradflow.params import ScalingType
 
@@ -805,6 +813,10 @@ def caller_data(tier="quick", seed=0, only=None):
                 diff = _same_trajectory(fresh, cached)
                 if diff:
                     failures.append(dict(label=f"C11:cached_callbacks_change_the_result:{fmt}:{scal}", input=inp, observed=diff))
+                # every object the callbacks handed out still holds the value (and dtype) it was created with
+                touched = [k[0] for k, v0 in cach_p._born.items() if _snap(cach_p._cache[k]) != v0]
+                if touched:
+                    failures.append(dict(label=f"C11:object_returned_by_{touched[0]}_callback_modified_by_solve:{fmt}:{scal}", input=inp, observed=f"{len(touched)} cached callback results changed ({sorted(set(touched))})"))
     seen, uniq = set(), []
     for f in failures:
         if f["label"] not in seen:
@@ -1094,10 +1106,12 @@ def solve_precision(tier="quick", seed=0, only=None):
         "eq_row_box_thirds": (lambda: QP([[1, 0.2, 0], [0.2, 1, 0], [0, 0, 1]], [1, -2, 0.5], [[1, 1, 1]], [1 / 3], [1 / 3], [-1 / 3, -1 / 3, -1 / 3], [1 / 3, 2 / 3, 1 / 3]), np.array([0.1, 0.1, 0.1])),
     }
     failures, cases = [], 0
-    for name, (mk, x0) in D.items():
-        for ss in STEP_SOLVERS:
+    starts = {"box_0.7_0.3": [np.array([0.9, 0.0]), np.array([0.7, 0.3]), np.array([0.7 + 1e-9, 0.3 - 1e-9])], "fixed_0.1_ranged_row": [np.array([0.1, 0.2])], "eq_row_box_thirds": [np.array([0.1, 0.1, 0.1]), np.array([1 / 3, 2 / 3, -1 / 3])]}
+    for name, (mk, _x0) in D.items():
+      for si, x0 in enumerate(starts[name]):
+        for ss in (STEP_SOLVERS if si == 0 else STEP_SOLVERS[:1]):
             for nt in (NEWTON[:2] if tier == "quick" else NEWTON):
-                inp = dict(problem=name, step_solver=ss, newton=nt)
+                inp = dict(problem=name, start=x0.tolist(), step_solver=ss, newton=nt)
                 if only is not None and only != inp:
                     continue
                 problem = mk()
@@ -1115,16 +1129,17 @@ def solve_precision(tier="quick", seed=0, only=None):
                     failures.append(dict(label="C06:result_not_in_working_precision", input=inp, observed=f"{res.x.dtype} {res.y.dtype}"))
                 if not (np.all(np.isfinite(res.x)) and np.all(np.isfinite(res.y)) and np.all(np.isfinite(res.d))):
                     failures.append(dict(label="C06:non-finite_result", input=inp, observed=str(res.status)))
-                # double-precision points (the user's own start) are judged against the user's bounds, float32
-                # points against the bounds rounded to float32: a point is fine when inside the hull of the two
-                lb32 = np.minimum(problem.var_lb.astype(np.float32).astype(float), problem.var_lb)
-                ub32 = np.maximum(problem.var_ub.astype(np.float32).astype(float), problem.var_ub)
+                # a point handed to the user's callbacks must lie in the user's box (double-precision points: the user's
+                # own start) or in the box the solver itself works with (its bounds in working precision)
                 n = problem.num_vars
+                wl, wu = np.asarray(rec.solver.problem.var_lb[:n], float), np.asarray(rec.solver.problem.var_ub[:n], float)
                 pts = [("returned_x", np.asarray(res.x))] + [(k, np.asarray(x)) for (k, x) in rec.evals]
                 for k, x in pts:
-                    xx = x[:n]
-                    if not (np.all(lb32 <= xx) and np.all(xx <= ub32)):
-                        failures.append(dict(label=f"C05:single_precision:{'evaluation' if k != 'returned_x' else 'result'}_outside_working-precision_bounds", input=inp, observed=f"{k} at {xx!r}"))
+                    xx = np.asarray(x[:n], float)
+                    in_user = np.all(problem.var_lb <= xx) and np.all(xx <= problem.var_ub)
+                    in_work = np.all(wl <= xx) and np.all(xx <= wu)
+                    if not (in_user or in_work):
+                        failures.append(dict(label=f"C05:single_precision:{'evaluation' if k != 'returned_x' else 'result'}_outside_both_the_user's_and_the_working-precision_bounds", input=inp, observed=f"{k} at {xx!r}, working bounds {wl!r}..{wu!r}"))
                         break
     seen, uniq = set(), []
     for f in failures:
